@@ -108,7 +108,7 @@ def _subsets(rng, n):
     yield rng.choice(n, size=min(n, 5), replace=True).astype(np.int32)
 
 
-def check_mapping(ctx, name, m, mp, rng, label):
+def check_mapping(ctx, name, m, mp, rng, label, cells_only=False):
     dim = m.dim()
     refdom = m.elem.refdom
     nt = m.t.shape[1]
@@ -165,7 +165,7 @@ def check_mapping(ctx, name, m, mp, rng, label):
         ref = np.linalg.det(np.moveaxis(DF, (0, 1), (-2, -1)))
         _check(ctx, 'det', f'jacobian:{label}:{name}', np.abs(dDF - ref).max() / (1 + np.abs(ref).max()), d2)
     # ---- facets
-    if (dim == 1 and label == 'iso') or refdom.brefdom is None:      # prisms have mixed facets: no facet map in the library
+    if cells_only or (dim == 1 and label == 'iso') or refdom.brefdom is None:      # prisms have mixed facets: no facet map in the library
         return
     nf = m.facets.shape[1]
     bref = refdom.brefdom
@@ -411,6 +411,136 @@ def affine_vs_iso(ctx, name, m, rng):
                     _check(ctx, 'affine_iso', key, np.abs(a - b).max() / (1 + np.abs(a).max()), d2)
 
 
+def api_forms(ctx, rng):
+    """public call forms that forward to the mapping / facet-basis core (coverage audit): each is compared with the core path"""
+    import skfem as fe
+    from skfem.generic_utils import OrientedBoundary
+    from skfem.mapping import MappingAffine, MappingIsoparametric
+    cov = {}
+
+    def same(key, what, a, b, data, tol=1e-12):
+        a, b = np.asarray(a, dtype=float), np.asarray(b, dtype=float)
+        ctx.count(('api', key, what), nontrivial=True)
+        if a.shape != b.shape:
+            ctx.fail(key, f'{what}: shapes {a.shape} vs {b.shape}', data)
+        elif a.size and not np.abs(a - b).max() <= tol * (1 + np.abs(b).max()):
+            ctx.fail(key, f'{what}: differs from the core path by {np.abs(a - b).max():.3e}', data)
+    cases = [('tri', _jiggle(fe.MeshTri().refined(2), rng, 0.3), fe.ElementTriP1(), fe.ElementTriP2()),
+             ('quad', _jiggle(fe.MeshQuad().refined(2), rng, 0.3), fe.ElementQuad1(), fe.ElementQuad2()),
+             ('tet', _jiggle(fe.MeshTet().refined(1), rng, 0.2), fe.ElementTetP1(), fe.ElementTetP2())]
+    for name, m, e1, e2 in cases:
+        d0 = {'mesh': name, 'p': m.p.tolist(), 't': m.t.tolist()}
+        m = m.with_boundaries({'left': lambda x: x[0] < 1e-9, 'cut': lambda x: np.abs(x[0] - 0.5) < 1e-9})
+        basis = fe.Basis(m, e1, intorder=3)
+        # CellBasis.boundary(facets, intorder, quadrature) == FacetBasis(...)
+        for facets in (None, 'left', m.boundaries['left'][::2]):
+            fb1 = basis.boundary(facets, intorder=3) if facets is not None else basis.boundary(intorder=3)
+            fb2 = fe.FacetBasis(m, e1, facets=facets, intorder=3)
+            key = f'api:CellBasis.boundary:{name}'
+            same(key, 'normals', fb1.normals, fb2.normals, d0)
+            same(key, 'dx', fb1.dx, fb2.dx, d0)
+            same(key, 'global_coordinates', fb1.global_coordinates(), fb2.global_coordinates(), d0)
+        fbq = basis.boundary('left', quadrature=(fb2.X, fb2.W))
+        same(f'api:CellBasis.boundary:{name}', 'quadrature option', fbq.dx, fe.FacetBasis(m, e1, facets='left', quadrature=(fb2.X, fb2.W)).dx, d0)
+        cov['CellBasis.boundary(facets=None|name|array, intorder, quadrature)'] = 'now: == FacetBasis(...) (normals, dx, coordinates)'
+        # FacetBasis.with_element keeps facets, side, orientation, quadrature
+        intf = np.nonzero(m.f2t[1] >= 0)[0].astype(np.int32)
+        ori = (np.arange(len(intf)) % 2)
+        for side, fac in ((0, intf), (1, intf), (0, OrientedBoundary(intf, ori)), (1, OrientedBoundary(intf, ori))):
+            fa = fe.FacetBasis(m, e1, facets=fac, side=side, intorder=3)
+            fbb = fa.with_element(e2)
+            key = f'api:FacetBasis.with_element:{name}'
+            same(key, 'normals', fbb.normals, fa.normals, dict(d0, side=side))
+            same(key, 'dx', fbb.dx, fa.dx, dict(d0, side=side))
+            same(key, 'cells (tind)', fbb.tind, fa.tind, dict(d0, side=side))
+            same(key, 'global_coordinates', fbb.global_coordinates(), fa.global_coordinates(), dict(d0, side=side))
+        cov['FacetBasis.with_element (side 0/1, OrientedBoundary)'] = 'now: normals, dx, tind, coordinates unchanged'
+        # named boundary 'cut' (interior facets) and facets_satisfying(..., normal=v): the delivered normals follow v
+        v = np.zeros(m.dim())
+        v[0] = 1.
+        ob = m.facets_satisfying(lambda x: np.abs(x[0] - 0.5) < 1e-9, normal=v)
+        ob2 = m.facets_satisfying(lambda x: np.abs(x[0] - 0.5) < 1e-9, normal=-v)
+        for tag, o, sgn in (('normal=+e1', ob, 1.), ('normal=-e1', ob2, -1.)):
+            if len(o) == 0:
+                continue
+            fo = fe.FacetBasis(m, e1, facets=o, intorder=3)
+            ctx.count(('api', 'facets_satisfying', name, tag), nontrivial=True)
+            if not (sgn * np.asarray(fo.normals)[0] > 0).all():
+                ctx.fail(f'api:facets_satisfying-normal:{name}', f'FacetBasis on facets_satisfying(..., {tag}) delivers normals against the requested direction',
+                         dict(d0, facets=np.asarray(o).tolist(), ori=o.ori.tolist()))
+        cov['Mesh.facets_satisfying(normal=) -> OrientedBoundary -> FacetBasis.normals'] = 'now: normals follow the requested direction'
+        # Basis / FacetBasis with an explicit mapping= (affine and isoparametric P1 on straight simplices)
+        if name in ('tri', 'tet'):
+            ma, mi = MappingAffine(m), MappingIsoparametric(m, m.elem(), m.bndelem)
+            ba, bi = fe.Basis(m, e1, mapping=ma, intorder=3), fe.Basis(m, e1, mapping=mi, intorder=3)
+            same(f'api:Basis(mapping=):{name}', 'dx affine vs isoparametric', ba.dx, bi.dx, d0)
+            same(f'api:Basis(mapping=):{name}', 'coordinates', ba.global_coordinates(), bi.global_coordinates(), d0)
+            fa_, fi_ = fe.FacetBasis(m, e1, mapping=ma, intorder=3), fe.FacetBasis(m, e1, mapping=mi, intorder=3)
+            same(f'api:FacetBasis(mapping=):{name}', 'normals', fa_.normals, fi_.normals, d0)
+            same(f'api:FacetBasis(mapping=):{name}', 'dx', fa_.dx, fi_.dx, d0)
+            cov['Basis(mapping=) / FacetBasis(mapping=)'] = 'now: affine vs isoparametric P1 give the same dx, coordinates, normals'
+        # Refdom.on_facet / init_refdom / dim
+        refdom = m.elem.refdom
+        p0, t0 = refdom.init_refdom()
+        if not (np.array_equal(p0, refdom.p) and np.array_equal(t0, refdom.t) and refdom.dim() == m.dim()):
+            ctx.fail(f'api:Refdom.init_refdom:{name}', 'init_refdom() / dim() differ from the class tables', d0)
+        mp = m.mapping()
+        fb = fe.FacetBasis(m, e1, intorder=2)                 # boundary facets, points strictly inside each facet
+        Y = mp.invF(mp.G(fb.X, find=fb.find), tind=fb.tind)
+        slot = np.array([int(np.nonzero(m.t2f[:, c] == f)[0][0]) for f, c in zip(fb.find, fb.tind)])
+        Xin = _ref_points(refdom, rng, 4)
+        try:
+            for s in range(len(refdom.facets)):
+                on = np.asarray(refdom.on_facet(s, Y)).astype(bool)
+                ctx.count(('api', 'on_facet', name, s), nontrivial=True)
+                if not np.array_equal(on, np.broadcast_to((slot == s)[:, None], on.shape)):
+                    ctx.fail(f'api:Refdom.on_facet:{name}', f'{refdom.__name__}.on_facet({s}, Y) does not characterise the reference points of local facet {s}',
+                             dict(d0, slot=s, expected=(slot == s).tolist(), got=on.tolist()))
+                if np.asarray(refdom.on_facet(s, Xin)).astype(bool).any():
+                    ctx.fail(f'api:Refdom.on_facet:{name}', f'{refdom.__name__}.on_facet({s}, X) is true for a point strictly inside the cell', dict(d0, X=Xin.tolist()))
+            cov[f'{refdom.__name__}.on_facet / init_refdom / dim'] = 'now: on_facet(s, invF(G(X))) <=> s is the local slot; false inside the cell'
+        except NotImplementedError:
+            cov[f'{refdom.__name__}.on_facet'] = 'not implemented by the library for this reference domain'
+        # isoparametric options: Newton tolerance / iteration limit, J= argument
+        mi = MappingIsoparametric(m, m.elem(), m.bndelem) if name != 'quad' else mp
+        X = _ref_points(refdom, rng, 3, m.t.shape[1])
+        x = mi.F(X)
+        same(f'api:invF(newton_tol):{name}', 'invF(x, newton_tol=1e-8)', mi.invF(x, newton_tol=1e-8), X, d0, tol=1e-7)
+        if name == 'quad':
+            try:
+                mi.invF(x, newton_max_iters=1)
+                ctx.fail(f'api:invF(newton_max_iters):{name}', 'invF with newton_max_iters=1 on distorted quadrilaterals returned without convergence', d0)
+            except Exception:  # noqa: BLE001 - documented behaviour: raises
+                pass
+        J = [[mi.J(i, j, X) for j in range(m.dim())] for i in range(m.dim())]
+        same(f'api:DF(J=):{name}', 'DF(X, J=J)', mi.DF(X, J=J), mi.DF(X), d0)
+        same(f'api:DF(J=):{name}', 'detDF(X, J=J)', mi.detDF(X, J=J), mi.detDF(X), d0)
+        cov['MappingIsoparametric.invF(newton_tol, newton_max_iters), DF/detDF(J=)'] = 'now'
+    # discontinuous / periodic mesh classes: the cell maps use doflocs[element_dofs]
+    for cls, base in (('MeshTri1DG', fe.MeshTri().refined(2)), ('MeshQuad1DG', fe.MeshQuad().refined(2)), ('MeshLine1DG', fe.MeshLine(np.linspace(0, 1, 6))),
+                      ('MeshHex1DG', fe.MeshHex().refined(1))):
+        if not hasattr(fe, cls):
+            continue
+        M = getattr(fe, cls)
+        try:
+            md = M.periodic(base, base.nodes_satisfying(lambda x: x[0] == 1), base.nodes_satisfying(lambda x: x[0] == 0))
+            check_mapping(ctx, cls + '-periodic', md, md.mapping(), rng, 'iso', cells_only=True)
+            ed = md.dofs.element_dofs
+            V = md.elem.refdom.p
+            Fv = md.mapping().F(V)                                   # images of the reference vertices: the cell's own nodes
+            same(f'api:{cls}.periodic', 'F(reference vertices) == doflocs[element_dofs]', Fv, md.doflocs[:, ed].transpose(0, 2, 1), {'mesh': cls})
+            vol = np.abs(md.mapping().detDF(_ref_points(md.elem.refdom, rng, 1))).sum() * {1: 1., 2: 1., 3: 1.}[md.dim()]
+            cov[f'{cls}.periodic(...).mapping()'] = 'now: cell maps (layouts, round trips, Jacobians, vertex images)'
+        except Exception as e:  # noqa: BLE001
+            ctx.fail(f'api:{cls}.periodic', f'{type(e).__name__}: {e}', {'mesh': cls})
+    cov.update({'FacetBasis.trace / _trace_project / project': 'out of scope for C10 (L2 projection / lower-dimensional trace mesh: C06, C18)',
+                'Mapping (abstract base) F/invF/G/...': 'out of scope: raise NotImplementedError',
+                'MappingAffine / MappingIsoparametric F, invF, DF, invDF, detDF, G, detDG, normals, A, b, invA, detA, B, c, detB, Fmap, _J, J, bndmap, bndJ': 'covered before (all layouts / subsets)',
+                'FacetBasis / InteriorFacetBasis (facets, side, OrientedBoundary, intorder), default_parameters, global_coordinates, mesh_parameters': 'covered before',
+                'generic_utils.hash_args / OrientedBoundary / deprecated': 'hash_args is C15; OrientedBoundary covered; deprecated is a decorator (not C10)'})
+    ctx.extra['api_coverage'] = cov
+
+
 def mixed_cells_witness(ctx):
     """deterministic witness, first in every tier: structured quadrilateral / hexahedral grids in which SOME cells are strongly
     distorted (one interior node moved by 35% of the cell size) and the others stay rectangles, queried in ONE call (tind None and
@@ -481,6 +611,11 @@ def run(ctx, rng):
     STAT.clear()
     with warnings.catch_warnings():
         warnings.simplefilter('ignore')
+        try:
+            api_forms(ctx, rng)
+        except Exception as e:  # noqa: BLE001
+            import traceback
+            ctx.fail('api-forms:exception', f'{type(e).__name__}: {e}', {'traceback': traceback.format_exc()[-1500:]})
         try:
             mixed_cells_witness(ctx)
         except Exception as e:  # noqa: BLE001
